@@ -1,8 +1,9 @@
 (* C07 - Requests reach the responsible broker; results return in payload order.
+   (client.py line numbers as of /repo commit b8d6557.)
    Theorem statements only; proofs live in Proofs/ClientRoute*.v.
-   Model: Model/ClientRoute.v over the cache of Model/ClientMeta.v (afkak/client.py:989-1020 resolution,
-   1100-1229 broker-agnostic requests, 1231-1362 _send_broker_aware_request, 1364-1394
-   _send_request_to_coordinator, 1397-1445 _normalize_hosts).  [aware st group expect ps loads outs] is one
+   Model: Model/ClientRoute.v over the cache of Model/ClientMeta.v (afkak/client.py:996-1029 resolution,
+   1109-1238 broker-agnostic requests, 1240-1371 _send_broker_aware_request, 1373-1403
+   _send_request_to_coordinator, 1406-1454 _normalize_hosts).  [aware st group expect ps loads outs] is one
    call of _send_broker_aware_request in cache state [st] for payloads [ps] (to the coordinator of [group] if
    given); [loads] scripts the metadata / coordinator lookups it has to make (any try sequence, any response),
    [outs] says for each per-broker request whether it failed or what the broker answered.  Its result
@@ -15,9 +16,10 @@
      answers reqs os     = all responses received, in request order
      honest reqs os      = every broker that answers, answers for exactly the partitions it was asked (any order)
    Duplicate (topic, partition) payloads in one call are outside the order/accounting statements (hypothesis
-   NoDup (map p_key ps)): the response dictionary keeps one answer per key (client.py:1348). *)
+   NoDup (map p_key ps)): the response dictionary keeps one answer per key (client.py:1357). *)
 From AV Require Import Base.Util Model.ClientMeta Model.ClientRoute Proofs.ClientMetaDict Proofs.ClientMetaFacts
-  Proofs.ClientRouteWF Proofs.ClientRouteFacts Proofs.ClientRouteFallback Proofs.ClientRouteHosts Proofs.ClientRouteNoKeyError.
+  Proofs.ClientRouteWF Proofs.ClientRouteFacts Proofs.ClientRouteAddr Proofs.ClientRouteFallback Proofs.ClientRouteHosts
+  Proofs.ClientRouteNoKeyError.
 From Coq Require Import Permutation Sorted.
 
 (* Routing.  Whenever requests are sent: the payloads were resolved in order, each to the node the cache named
@@ -41,6 +43,40 @@ Theorem C07_routing : forall st group expect ps loads outs rs failed,
   Permutation (concat (map rq_payloads (a_reqs r))) ps.
 Proof. exact aware_routing. Qed.
 Print Assumptions C07_routing.
+
+(* "Current metadata" is the cache at the moment each payload is resolved: all payloads are resolved first
+   (client.py: the for loop over payloads), then the requests are sent.  A lookup made for a LATER payload can
+   move the cached leader of an EARLIER one; the earlier payload keeps the node it was resolved to (see the
+   Example ex_stale_earlier_payload below - real code behaviour, the next call uses the new leader). *)
+
+(* The address: each request travels over its node's live connection if the client had one when the resolution
+   of the payloads ended (state st1), otherwise it is dialled at the address the cache has for the node then
+   (by C08_merge_exact the address the latest response naming the node gave). *)
+Theorem C07_request_address : forall st group expect ps loads outs st1 evs resolved,
+  WF st -> resolve_loop st group ps loads [] [] = (st1, evs, inl resolved) ->
+  forall q, In q (a_reqs (aware st group expect ps loads outs)) ->
+    match zget (rq_node q) (s_clients st1) with
+    | Some c => match c_conn c with
+                | Some x => rq_addr q = x
+                | None => zget (rq_node q) (s_brokers st1) = Some (rq_addr q)
+                end
+    | None => zget (rq_node q) (s_brokers st1) = Some (rq_addr q)
+    end.
+Proof. exact aware_addr. Qed.
+Print Assumptions C07_request_address.
+
+(* All or nothing: if some payload cannot be resolved (no leader, unknown partition, coordinator or metadata
+   not available, empty payload list ...) NOTHING is sent.  The only other error exits are close() / a broker
+   address missing in the middle of the fan-out (the latter impossible from reachable states, C07_no_keyerror),
+   after a prefix of the requests. *)
+Theorem C07_all_or_nothing : forall st group expect ps loads outs e,
+  let r := aware st group expect ps loads outs in
+  a_res r = SErr e ->
+  (a_reqs r = [] /\ a_resolved r = []) \/
+  ((e = EClientError \/ e = EScript \/ e = EKeyErrorBroker) /\
+   exists k, map req_view (a_reqs r) = firstn k (group_by_node (resolved_pairs (a_resolved r)))).
+Proof. exact aware_error_exits. Qed.
+Print Assumptions C07_all_or_nothing.
 
 (* _send_request_to_coordinator: the single request goes to the coordinator the cache names at that moment *)
 Theorem C07_coordinator_request : forall st g p loads o r st' res q,
@@ -67,6 +103,12 @@ Theorem C07_order : forall st group ps loads outs rs,
 Proof. exact aware_order. Qed.
 Print Assumptions C07_order.
 
+(* acks=0 (no decoder): a successful call returns no responses *)
+Theorem C07_order_acks0 : forall st group ps loads outs rs,
+  a_res (aware st group false ps loads outs) = SOk rs -> rs = [].
+Proof. exact aware_noexpect_ok. Qed.
+Print Assumptions C07_order_acks0.
+
 (* Accounting on partial failure.  FailedPayloadsError(responses, failed): failed is non-empty and is the
    concatenation, in request order, of the payload lists of the requests that failed (each in payload order
    by C07_routing); with acks=0 there are no responses; otherwise responses were all received, and with honest
@@ -87,6 +129,10 @@ Theorem C07_accounting : forall st group expect ps loads outs rs failed,
 Proof. exact aware_accounting. Qed.
 Print Assumptions C07_accounting.
 
+(* NB: the two Permutation conjuncts below are the model's script guards (the shuffled lists the environment
+   supplies must be permutations of the known brokers / the bootstrap hosts, otherwise the result is UScript);
+   that the code shuffles exactly `list(self._brokers)` / `self._bootstrap_hosts` is tied by the monitor
+   (the shuffled lists are read back from the implementation). *)
 (* Fallback order of a broker-agnostic request (metadata, coordinator lookup) on an open client, for every
    script of shuffles and try outcomes the environment can produce:
    - the known brokers are considered connected-first, in shuffle order within each class;
@@ -114,7 +160,7 @@ Print Assumptions C07_fallback_order.
 
 (* From every reachable state (Proofs/ClientRouteWF.v: [reach] is closed under every client operation with
    arbitrary scripts, [reach_WF : reach st -> WF st]) the node a payload resolves to and every node the
-   fallback order names has a known address: KeyError at client.py:908 (self._brokers[node_id]) cannot
+   fallback order names has a known address: KeyError at client.py:915 (self._brokers[node_id]) cannot
    happen, neither in the fan-out nor in a broker-agnostic request. *)
 Theorem C07_no_keyerror : forall st group expect ps loads outs,
   reach st -> a_res (aware st group expect ps loads outs) <> SErr EKeyErrorBroker.
@@ -196,3 +242,32 @@ Example ex_hosts :
   normalize_hosts_str [HStr [32; 98; 32] None; HTuple [97] 9092; HStr [98] (Some 9092); HStr [97] (Some 1)]
   = [([97], 1); ([97], 9092); ([98], 9092)].
 Proof. vm_compute. reflexivity. Qed.
+
+(* the "leader at resolution time" corner: t0/0 is cached on node 1; t0/3 is not cached, its lookup returns a
+   response that moves t0/0 to node 2: the request for t0/0 still goes to node 1 (resolved before the lookup) *)
+Example ex_stale_earlier_payload :
+  let u := {| u_shuf := [1; 2; 3]; u_kouts := [KResp]; u_bshuf := []; u_bouts := [] |} in
+  let moved := {| rr_brokers := [(1, (101, 9092)); (2, (102, 9092)); (3, (103, 9092))];
+                  rr_topics := [{| rt_err := 0; rt_id := 0; rt_parts := [(0, 0, 2); (0, 3, 3)] |}] |} in
+  let r := aware ex_st None true [pl 0 0 1; pl 0 3 2] [LoadMeta u moved] [ROk [rp 0 0 1]; ROk [rp 0 3 2]] in
+  map (fun q => (rq_node q, map p_tag (rq_payloads q))) (a_reqs r) = [(1, [1]); (3, [2])] /\
+  leader_of (a_state r) (0, 0) = Some (Some (2, (102, 9092))).
+Proof. vm_compute. split; reflexivity. Qed.
+(* an unresolvable payload: nothing is sent *)
+Example ex_all_or_nothing :
+  let u := {| u_shuf := [1; 2; 3]; u_kouts := [KResp]; u_bshuf := []; u_bouts := [] |} in
+  let r := aware ex_st None true [pl 0 0 1; pl 3 0 2] [LoadMeta u ex_raw] [] in
+  a_res r = SErr EPartitionUnavailable /\ a_reqs r = [].
+Proof. vm_compute. split; reflexivity. Qed.
+(* a reachable state in which the coordinator of group 5 is a broker no metadata response ever named *)
+Example ex_reach_coordinator :
+  exists st, reach st /\ zget 5 (s_g2c st) = Some (7, (107, 9092)) /\
+    a_res (aware st (Some 5) true [pl 0 0 1] [] [ROk [rp 0 0 1]]) = SOk [rp 0 0 1].
+Proof.
+  eexists. split; [|split].
+  - eapply (R_coord (init_state [(9, 9092)]) 5
+              {| u_shuf := []; u_kouts := []; u_bshuf := [(9, 9092)]; u_bouts := [BResp] |} (0, (7, (107, 9092))));
+      [apply R_init|vm_compute; reflexivity].
+  - vm_compute. reflexivity.
+  - vm_compute. reflexivity.
+Qed.
